@@ -119,7 +119,10 @@ Inductive feed :=
 | FdFile                      (* script = regular file on descriptor 0 *)
 | FdFifo (sizes : list nat)   (* script written into a pipe on descriptor 0 in these chunks *)
 | FdString                    (* yash -c script; descriptor 0 = data *)
-| FdScript.                   (* yash /script; descriptor 0 = data *)
+| FdScript                    (* yash /script; descriptor 0 = data *)
+| FdPieces (sizes : list nat). (* read_eval_loop over a custom Input returning the script in
+                                 these pieces (any piece may end in the middle of a line);
+                                 descriptor 0 = data *)
 
 Inductive iout :=
 | IObs (o : obs)
@@ -153,6 +156,7 @@ Definition model_of (parser : list pstate -> list line -> pres) (fuel pf : nat)
   | FdFifo sizes => model_run parser fuel pf SrcStdin (chunk sizes script)
   | FdString => model_run parser fuel pf (SrcMem (split_lines script)) [data]
   | FdScript => model_run parser fuel pf (SrcOwn [script]) [data]
+  | FdPieces sizes => model_run parser fuel pf (SrcInput (chunk sizes script)) [data]
   end.
 
 Definition spec_of (parser : list pstate -> list line -> pres) (fuel pf : nat)
